@@ -14,7 +14,7 @@ CHECK = {
                     "arguments of a partial-width setter that are not a value of its width (bits above the width set, not a sign extension): the statement speaks of storing a value of that width, so only 'nothing outside width/8 octets is written' and memory safety are demanded -- a setter may store the low octets or refuse (return anything, write nothing); signed arguments that are the sign extension of a W-bit value are values of the width: octets, returned address and neighbours are demanded; swap helpers on arguments wider than the swap: only the low width/8 octets of the result",
                     "ASan red zones directly behind/in front of exact-size heap blocks observe accesses outside the datum",
                     "'at any alignment' is observed in two ways: the octets and the value at offsets 0..7, and UBSan's alignment check on every access the codec makes (a codec that dereferences a uintNN_t lvalue at an odd address is undefined there even if this host tolerates it)",
-                    "build configurations covered: UFW_USE_BUILTIN_SWAP defined (all three builtins) and undefined (none); clang -O1 and -O2, with and (at -O2) without sanitizer instrumentation; other compilers (the engine builds with clang only; a gcc build variant would need a `cc` key in checks.d) and partial builtin availability are not",
+                    "build configurations covered: UFW_USE_BUILTIN_SWAP defined (all three builtins) and undefined (none); clang -O1 and -O2, with and (at -O2) without sanitizer instrumentation, and -O0 without instrumentation where every load is preceded by a call that fills the stack region the loader is about to use with a5 (a loader returning octets it never initialised shows them); other compilers (the engine builds with clang only; a gcc build variant would need a `cc` key in checks.d) and partial builtin availability are not",
                     "in the build without sanitizers accesses outside the datum are observed through the in-band canaries and the typed images only (no red zones)"],
     "harnesses": [{
         "name": "c15_binfmt", "src": "harness/c15_binfmt.c", "shape": "espace", "opt": "-O2",
@@ -42,6 +42,11 @@ CHECK = {
     }, {
         "name": "c15_binfmt_o2_plain", "src": "harness/c15_binfmt.c", "shape": "espace", "opt": "-O2",
         "cflags": ["-fno-sanitize=all", "-DC15_LIGHT", "-DC15_PLAIN"],
+        "lib": [], "min_outcomes": 17,
+        "require_outcomes": {"any": _LIGHT, "thorough": _LIGHT + ["swap-sweep-wide"]},
+    }, {
+        "name": "c15_binfmt_o0_plain", "src": "harness/c15_binfmt.c", "shape": "espace", "opt": "-O0",
+        "cflags": ["-fno-sanitize=all", "-DC15_LIGHT", "-DC15_PLAIN", "-DC15_O0"],
         "lib": [], "min_outcomes": 17,
         "require_outcomes": {"any": _LIGHT, "thorough": _LIGHT + ["swap-sweep-wide"]},
     }],
